@@ -8,6 +8,7 @@ import (
 	"sort"
 	"strconv"
 	"strings"
+	"unicode/utf8"
 )
 
 const thisChain = "settlus_5371-1"
@@ -658,6 +659,9 @@ func monC08(tr *Trace, br map[string]int) (out []Violation) {
 		case "prevote":
 			if !validAcctTok(c.op[1]) || valIndex(c.op[2]) < 0 {
 				return
+			}
+			if !utf8.ValidString(decTok(c.op[3])) {
+				return // refused by basic validation like a malformed address: not a prevote
 			}
 			want := pu(c.op[4]) == roundStart(s) && s.H%(2*s.VP) < s.VP
 			got := c.res[0] == "ok"
